@@ -1294,8 +1294,26 @@ namespace nrf51_details {
 
     bluetoe::details::uint128_t scheduled_radio_base_with_encryption_base::create_passkey()
     {
+        // A passkey is a six digit decimal number (000000 ... 999999; Core Vol 3, Part H, 2.3.5.2),
+        // used as TK in its 128 bit little endian representation and displayed to the user.
+        // Draw 20 random bits and retry while the value is out of range: rejection sampling keeps
+        // the distribution uniform and a draw is accepted with a probability of more than 95%.
+        static constexpr std::uint32_t passkey_limit = 1000000;
+        std::uint32_t value;
+
+        do
+        {
+            const std::uint32_t b0 = random_number8();
+            const std::uint32_t b1 = random_number8();
+            const std::uint32_t b2 = random_number8();
+
+            value = ( b0 | ( b1 << 8 ) | ( b2 << 16 ) ) & 0xFFFFF;
+        } while ( value >= passkey_limit );
+
         const bluetoe::details::uint128_t result{{
-            random_number8(), random_number8(), random_number8()
+            static_cast< std::uint8_t >( value & 0xFF ),
+            static_cast< std::uint8_t >( ( value >> 8 ) & 0xFF ),
+            static_cast< std::uint8_t >( value >> 16 )
         }};
 
         return result;
